@@ -4,7 +4,7 @@
 import itertools
 import json
 
-from common import Check, ERR_CODES, cbool, clist, coq_eval, cz, czlist, outcome_class
+from common import Check, ERR_CODES, cbool, clist, cz, czlist, outcome_class
 
 PRELUDE = """From Coq Require Import List ZArith Bool.
 From SC Require Import Base.Res Base.PyList KS.Model KS.Spec Corr.Enc Corr.KSCorr.
@@ -441,7 +441,7 @@ def generate(rng, tier):
         keys, pays = [0, 1, 2], [0, 1]
         insts = op_instances(u, keys, pays, typed)
         for init in states(keys, pays, 2 if quick else 3):
-            st = 16 if quick else (4 if len(init) < 3 else 32)
+            st = 16 if quick else (2 if len(init) < 3 else 16)
             for op in insts[rng.randrange(st)::st]:
                 cases.append((u, typed, enf, init, [op], "exh1"))
     # depth 2 over a smaller universe
@@ -449,10 +449,10 @@ def generate(rng, tier):
         keys, pays = [0, 1], [0, 1]
         insts = op_instances(u, keys, pays, typed)
         for init in states(keys, pays, 2):
-            for _ in range(6 if quick else 80):
+            for _ in range(6 if quick else 160):
                 cases.append((u, typed, enf, init, [rng.choice(insts), rng.choice(insts)], "exh2"))
     # random longer sequences over 5 keys x 3 payloads
-    n_rand = 4800 if quick else 60000
+    n_rand = 4800 if quick else 120000
     for i in range(n_rand):
         u, typed, enf = configs[i % len(configs)]
         init, ops = random_case(rng, u, typed, 8 if quick else 16)
@@ -461,6 +461,47 @@ def generate(rng, tier):
 
 
 # ------------------------------------------------------------------ check
+def ks_eval(prelude, check_fn, case_terms, tag, case_type, shard=300):
+    """common.coq_eval, but in a directory private to this process (concurrent
+    runs of this check, or somebody tidying coq/Corr/gen, cannot take the case
+    files away) and with one retry of shards whose file vanished or that died."""
+    import os
+    import re
+    import shutil
+    from concurrent.futures import ThreadPoolExecutor
+    from common import GEN, JOBS, _eval_shard
+    d = os.path.join(GEN, f"C14_{os.getpid()}")
+    texts = {}
+    for k in range(0, len(case_terms), shard):
+        path = os.path.join(d, f"C14_{tag}_{k // shard}.v")
+        texts[path] = (k, prelude + "\n" + f"Definition cases : list ({case_type}) := [\n"
+                       + ";\n".join(case_terms[k:k + shard]) + "\n].\n"
+                       + f"Definition result := Eval vm_compute in (failing (map {check_fn} cases)).\nPrint result.\n")
+    bad, logs, todo = [], [], list(texts)
+    for attempt in (1, 2):
+        os.makedirs(d, exist_ok=True)
+        for path in todo:
+            with open(path, "w") as fh:
+                fh.write(texts[path][1])
+        again = []
+        with ThreadPoolExecutor(max_workers=JOBS) as ex:
+            for path, rc, out in ex.map(_eval_shard, [(p,) for p in todo]):
+                m = re.search(r"result\s*=\s*(.*?)\s*:\s*list", out, re.S) if rc == 0 else None
+                if not m:
+                    if attempt == 1:
+                        again.append(path)
+                    else:
+                        logs.append(f"{path}: rc={rc}\n{out[:600]} ... {out[-600:]}")
+                    continue
+                for a, b in re.findall(r"\((\d+)%?n?a?t?,\s*(\d+)%?n?a?t?\)", m.group(1)):
+                    bad.append((texts[path][0] + int(a), int(b)))
+        todo = again
+        if not todo:
+            break
+    shutil.rmtree(d, ignore_errors=True)
+    return bad, logs
+
+
 def evaluate(cases, tag="c"):
     """run implementation and Coq on cases; returns ([(index, code, seen, resolved ops)], logs)"""
     impls = {}
@@ -478,7 +519,7 @@ def evaluate(cases, tag="c"):
     for g, fn, ty in (("self", "check_ks_self", "@case kitem"), ("fst", "check_ks_fst", "@case Z")):
         if not by_u[g]:
             continue
-        b, lg = coq_eval("C14", PRELUDE, fn, [t for _, t, _, _ in by_u[g]], tag=f"{tag}{g}", case_type=ty)
+        b, lg = ks_eval(PRELUDE, fn, [t for _, t, _, _ in by_u[g]], tag=f"{tag}{g}", case_type=ty)
         bad += [(by_u[g][j][0], code, by_u[g][j][2], by_u[g][j][3]) for j, code in b]
         logs += lg
     return bad, logs
@@ -689,7 +730,7 @@ def main(tier, replay=None):
         "evaluations": len(cases), "distinct_nontrivial": len(distinct),
         "rule": "case = (universe, typed, enforce_item_equivalence, initial items, operation list); depth-1: every state "
                 "of <=2 (thorough <=3) items of 3 keys x 2 payloads x a stride through every operation instance "
-                "(quick: every 16th; thorough: every 4th for <=2 items, every 32nd for 3), sampled depth-2, random "
+                "(quick: every 16th; thorough: every 2nd for <=2 items, every 16th for 3), sampled depth-2, random "
                 "sequences of <=8/16 operations over 5 keys x 3 payloads; distinct = distinct tuples; every case has >=1 operation",
         "samples": [dict(universe=c[0], typed=c[1], enforce=c[2], init=c[3], ops=c[4]) for c in pick],
         "exhaustive": False,
